@@ -332,6 +332,19 @@ def serial_case(rep, drv, rng, th, no_transit=None):
 	for j in labels:
 		if Sloc[j] != Sech[j] - (Sech[j - 1] if j > 1 else 0):
 			bad.append('echelon_to_local: stage %d local %s != %s - %s' % (j, Sloc[j], Sech[j], Sech.get(j - 1, 0)))
+	# the conversion is exact for non-integer levels too (normal-demand optima are never integers)
+	from stockpyl.supply_chain_network import local_to_echelon_base_stock_levels
+	Sfrac = {j: Sech[j] + 0.25 * j + rng.choice([0.125, 0.5, 0.75]) for j in labels}
+	for j in range(2, N + 1):
+		Sfrac[j] = max(Sfrac[j], Sfrac[j - 1])
+	try:
+		Lfrac = echelon_to_local_base_stock_levels(net0, dict(Sfrac))
+		back = local_to_echelon_base_stock_levels(net0, dict(Lfrac))
+		for j in labels:
+			if float(Lfrac[j]) != Sfrac[j] - (Sfrac[j - 1] if j > 1 else 0) or float(back[j]) != Sfrac[j]:
+				bad.append('echelon levels %s convert to local %s and back to %s' % (Sfrac, dict(Lfrac), dict(back))); break
+	except Exception as e:
+		bad.append('level conversion raised %s' % err_enum(e))
 	# period cost identity on the real trajectory: sum_j h'_j (IL_j+ + in transit to j-1) + p IL_1-  ==  sum_j h_j IN_j + (p + h'_1) IL_1-
 	pos, edges, inE, outE = simlib.layout(spec)
 	tot = []
